@@ -27,7 +27,7 @@ import os
 import re
 
 ENTRY_POINTS = ("parse", "parse_file", "resolve_includes")
-SKIP_FILES = {"errors.py", "__init__.py"}
+SKIP_FILES = set()
 FE_PARAMS = ["error_type", "line_num", "lines", "message", "pointer_col", "pointer_length", "suggestion",
              "filename", "line_map"]
 
@@ -144,6 +144,7 @@ class Extractor:
                     for e in ast.walk(n):
                         if isinstance(e, ast.Raise) or (isinstance(e, ast.Call) and self.callee_name(e) == "format_error"):
                             self.problems.append(f"{f}:{getattr(e, 'lineno', 0)}: diagnostic outside a function")
+        self.outside_calls()
         self.calls = {q: self.find_calls(fn) for q, fn in self.fns.items()}   # qual -> [(callee qual, Call)]
         self.callers = {}
         for q, cs in self.calls.items():
@@ -151,6 +152,26 @@ class Extractor:
                 self.callers.setdefault(g, []).append((q, call))
         self.contexts = {}      # qual -> {ctxkey: (bindings dict, set of via chains)}
         self.propagate()
+
+    def outside_calls(self):
+        """format_error used anywhere else in the package would be a site this table does not see."""
+        top = os.path.join(self.repo, "bardic")
+        for root, dirs, files in os.walk(top):
+            dirs[:] = [d for d in dirs if d not in ("pyodide", "__pycache__", "node_modules")]
+            if os.path.realpath(root) == os.path.realpath(self.dir):
+                continue
+            for f in files:
+                if not f.endswith(".py"):
+                    continue
+                p = os.path.join(root, f)
+                try:
+                    tree = ast.parse(open(p, encoding="utf-8").read())
+                except (SyntaxError, UnicodeDecodeError):
+                    continue
+                for n in ast.walk(tree):
+                    if isinstance(n, ast.Call) and self.callee_name(n) == "format_error":
+                        self.problems.append(f"{os.path.relpath(p, self.repo)}:{n.lineno}: format_error called "
+                                             "outside bardic/compiler/parsing")
 
     def add(self, fn):
         self.fns[fn.qual] = fn
